@@ -15,6 +15,8 @@ def run(chk):
     tree_rules.setup_resets(chk, "C16")
     backtest_rules.run_loop(chk, "C16")
     closeout_quantity(chk)
+    # after the liquidation nothing may be left parked on a security: the carry parked by a coupon-paying security is always coupon - cost of the CURRENT position
+    core_rules.coupon_accrual(chk, "C16")
 
 
 def closeout_quantity(chk):
